@@ -3,7 +3,7 @@ From Coq Require Import List Arith ZArith NArith Lia Bool Permutation.
 From BPT Require Import Common.Base Rust.Arena Rust.ArenaSpec Rust.ArenaProofs Common.AMap Rust.Tree Rust.Heap Rust.Readers Rust.Run
      Rust.InvDefs Rust.Repr Rust.Spec Rust.Lib Rust.ReachDefs Rust.ReachStep Rust.Reach Rust.ValidDefs Rust.Damage
      Rust.HeapOps Rust.HeapOpsSim Rust.NoUB Rust.Walk Rust.ValidAccept Rust.ValidSound Rust.MiscProofs
-     Rust.Bridge Rust.ChainExact Rust.TreeFactsR Rust.ReadersGet Props.Reachable Extra.RustExtra.
+     Rust.Bridge Rust.ChainExact Rust.TreeFactsR Rust.ReadersGet Rust.ReadersRange Props.Reachable Extra.RustExtra.
 Import ListNotations.
 
 (* ------------------------------------------------------------------ *)
@@ -434,6 +434,612 @@ Proof.
   - pose proof (@ArenaProofs.counts_spec T a AI) as H. lia.
 Qed.
 
+
+(* ------------------------------------------------------------------ *)
+(* B4: orphans (allocated nodes not in the tree) are rejected          *)
+(* ------------------------------------------------------------------ *)
+Set Implicit Arguments.
+Section ListAux.
+Variables A B : Type.
+
+Lemma NoDup_app_intro : forall (l1 l2 : list A),
+  NoDup l1 -> NoDup l2 -> (forall x, In x l1 -> ~ In x l2) -> NoDup (l1 ++ l2).
+Proof.
+  induction l1 as [|a l1 IH]; intros l2 H1 H2 Hd; [exact H2|].
+  cbn [app]. inversion H1 as [|a' l' Hn H1']; subst. constructor.
+  - intros Hin. apply in_app_or in Hin. destruct Hin as [Hin|Hin]; [contradiction|].
+    apply (Hd a); [left; reflexivity|exact Hin].
+  - apply IH; auto. intros x Hx. apply Hd. right. exact Hx.
+Qed.
+
+Lemma NoDup_app_elim : forall (l1 l2 : list A), NoDup (l1 ++ l2) ->
+  NoDup l1 /\ NoDup l2 /\ (forall x, In x l1 -> ~ In x l2).
+Proof.
+  induction l1 as [|a l1 IH]; intros l2 H.
+  - cbn [app] in H. split; [constructor|]. split; [exact H|]. intros x [].
+  - cbn [app] in H. inversion H as [|a' l' Hn H']; subst.
+    destruct (IH l2 H') as (N1 & N2 & D). split; [|split; [exact N2|]].
+    + constructor; [|exact N1]. intros Hin. apply Hn. apply in_or_app. left. exact Hin.
+    + intros x [<-|Hx] Hx2; [apply Hn; apply in_or_app; right; exact Hx2|exact (D x Hx Hx2)].
+Qed.
+
+Lemma NoDup_concat_intro : forall (ls : list (list A)),
+  (forall l, In l ls -> NoDup l) ->
+  (forall i j a b x, i < j -> nth_error ls i = Some a -> nth_error ls j = Some b ->
+     In x a -> In x b -> False) ->
+  NoDup (concat ls).
+Proof.
+  induction ls as [|l ls IH]; intros Hn Hd; [constructor|].
+  cbn [concat]. apply NoDup_app_intro.
+  - apply Hn. left. reflexivity.
+  - apply IH.
+    + intros l' Hl'. apply Hn. right. exact Hl'.
+    + intros i j a b x Hij Hi Hj. apply (Hd (S i) (S j) a b x); [lia|exact Hi|exact Hj].
+  - intros x Hx Hc. apply in_concat in Hc. destruct Hc as (b & Hb & Hxb).
+    apply In_nth_error in Hb. destruct Hb as (j & Hj).
+    apply (Hd 0 (S j) l b x); [lia|reflexivity|exact Hj|exact Hx|exact Hxb].
+Qed.
+
+Lemma NoDup_concat_elim1 : forall (ls : list (list A)) l, NoDup (concat ls) -> In l ls -> NoDup l.
+Proof.
+  induction ls as [|l0 ls IH]; intros l H Hin; [destruct Hin|].
+  cbn [concat] in H. apply NoDup_app_elim in H. destruct H as (N1 & N2 & _).
+  destruct Hin as [<-|Hin]; [exact N1|exact (IH l N2 Hin)].
+Qed.
+
+Lemma NoDup_concat_elim_lt : forall (ls : list (list A)) i j a b x, NoDup (concat ls) ->
+  i < j -> nth_error ls i = Some a -> nth_error ls j = Some b -> In x a -> In x b -> False.
+Proof.
+  induction ls as [|l0 ls IH]; intros i j a b x H Hij Hi Hj Ha Hb; [destruct i; discriminate|].
+  cbn [concat] in H. apply NoDup_app_elim in H. destruct H as (N1 & N2 & D).
+  destruct j as [|j]; [lia|]. cbn [nth_error] in Hj.
+  destruct i as [|i]; cbn [nth_error] in Hi.
+  - inversion Hi; subst a. apply (D x Ha). apply in_concat. exists b. split; [|exact Hb].
+    eapply nth_error_In; exact Hj.
+  - apply (IH i j a b x N2); auto; lia.
+Qed.
+
+Lemma NoDup_concat_elim2 : forall (ls : list (list A)) i j a b x, NoDup (concat ls) ->
+  i <> j -> nth_error ls i = Some a -> nth_error ls j = Some b -> In x a -> In x b -> False.
+Proof.
+  intros ls i j a b x H Hij Hi Hj Ha Hb.
+  destruct (Nat.lt_ge_cases i j) as [L|L].
+  - exact (@NoDup_concat_elim_lt ls i j a b x H L Hi Hj Ha Hb).
+  - assert (L' : j < i) by lia. exact (@NoDup_concat_elim_lt ls j i b a x H L' Hj Hi Hb Ha).
+Qed.
+
+Lemma length_in_concat : forall (ls : list (list A)) l, In l ls -> length l <= length (concat ls).
+Proof.
+  induction ls as [|l0 ls IH]; intros l Hin; [destruct Hin|].
+  cbn [concat]. rewrite app_length. destruct Hin as [<-|Hin]; [lia|].
+  specialize (IH l Hin). lia.
+Qed.
+
+Lemma NoDup_map_injective : forall (f : A -> B) l, (forall x y, f x = f y -> x = y) ->
+  NoDup l -> NoDup (map f l).
+Proof.
+  intros f l Hf. induction l as [|a l IH]; intros H; [constructor|].
+  inversion H as [|a' l' Hn H']; subst. cbn [map]. constructor; [|exact (IH H')].
+  intros Hin. apply in_map_iff in Hin. destruct Hin as (y & Hy & Hin).
+  apply Hf in Hy. subst y. contradiction.
+Qed.
+End ListAux.
+
+(* two families of results computed from the same list of children *)
+Lemma res_parts_rel : forall (X P1 P2 : Type) (R : P1 -> P2 -> Prop)
+    (g1 : X -> res P1) (g2 : X -> res P2) cs p1 p2,
+  map g1 cs = map (@Ok _) p1 -> map g2 cs = map (@Ok _) p2 ->
+  (forall c a b, In c cs -> g1 c = Ok a -> g2 c = Ok b -> R a b) ->
+  Forall2 R p1 p2.
+Proof.
+  intros X P1 P2 R g1 g2. induction cs as [|c cs IH]; intros p1 p2 H1 H2 HR.
+  - destruct p1; [|discriminate]. destruct p2; [|discriminate]. constructor.
+  - destruct p1 as [|a p1]; [discriminate|]. destruct p2 as [|b p2]; [discriminate|].
+    cbn [map] in H1, H2. inversion H1. inversion H2. constructor.
+    + apply (HR c); [left; reflexivity|assumption|assumption].
+    + apply IH; auto. intros c' a' b' Hin. apply HR. right. exact Hin.
+Qed.
+
+Lemma Forall2_eq_eq : forall (A : Type) (l1 l2 : list A), Forall2 eq l1 l2 -> l1 = l2.
+Proof. intros A l1 l2 H. induction H; [reflexivity|]. subst. reflexivity. Qed.
+
+Lemma map_ok_nth_fwd : forall (A B : Type) (g : A -> res B) cs parts i c,
+  map g cs = map (@Ok _) parts -> nth_error cs i = Some c ->
+  exists p, nth_error parts i = Some p /\ g c = Ok p.
+Proof.
+  intros A B g cs parts i c E Hc.
+  assert (H : nth_error (map (@Ok _) parts) i = Some (g c)).
+  { rewrite <- E. rewrite nth_error_map, Hc. reflexivity. }
+  rewrite nth_error_map in H. destruct (nth_error parts i) as [p|]; [|discriminate].
+  cbn in H. inversion H. exists p. auto.
+Qed.
+
+Lemma pair_sum_inv : forall (l : list (res (nat * nat))) init r,
+  pair_sum l init = Ok r ->
+  exists parts, l = map (@Ok _) parts /\
+    fst r = fst init + list_sum (map fst parts) /\ snd r = snd init + list_sum (map snd parts).
+Proof.
+  unfold pair_sum. induction l as [|x l IH]; intros init r H; cbn [fold_left] in H.
+  - inversion H; subst r. exists []. cbn. split; [reflexivity|]. lia.
+  - destruct x as [n| | |]; cbn [bind] in H.
+    + apply IH in H. destruct H as (parts & -> & H1 & H2). exists (n :: parts).
+      cbn [map fst snd] in *. split; [reflexivity|]. unfold list_sum in *. cbn [fold_right]. lia.
+    + exfalso. clear IH. induction l as [|y l IHl]; cbn [fold_left] in H; [discriminate|].
+      cbn [bind] in H. exact (IHl H).
+    + exfalso. clear IH. induction l as [|y l IHl]; cbn [fold_left] in H; [discriminate|].
+      cbn [bind] in H. exact (IHl H).
+    + exfalso. clear IH. induction l as [|y l IHl]; cbn [fold_left] in H; [discriminate|].
+      cbn [bind] in H. exact (IHl H).
+Qed.
+
+Lemma sum_fst_concat : forall (A : Type) (cp : list (nat * nat)) (lp : list (list A)),
+  Forall2 (fun n l => fst n = length l) cp lp -> list_sum (map fst cp) = length (concat lp).
+Proof.
+  intros A cp lp H. induction H as [|n l cp lp Hn _ IH]; [reflexivity|].
+  cbn [map concat]. rewrite app_length. unfold list_sum in *. cbn [fold_right]. lia.
+Qed.
+Lemma sum_snd_concat : forall (A : Type) (cp : list (nat * nat)) (lp : list (list A)),
+  Forall2 (fun n l => snd n = length l) cp lp -> list_sum (map snd cp) = length (concat lp).
+Proof.
+  intros A cp lp H. induction H as [|n l cp lp Hn _ IH]; [reflexivity|].
+  cbn [map concat]. rewrite app_length. unfold list_sum in *. cbn [fold_right]. lia.
+Qed.
+
+(* at most [a_len] distinct handles are live *)
+Lemma contained_le_len : forall (T : Type) (a : arena T) l, NoDup l ->
+  (forall id, In id l -> a_contains a id = true) -> length l <= a_len a.
+Proof.
+  intros T a l Hn Hc. unfold a_len. rewrite count_true_filter_seq.
+  rewrite <- (map_length N.to_nat l). apply NoDup_incl_length.
+  - apply NoDup_map_injective; [exact N2Nat.inj|exact Hn].
+  - intros i Hi. apply in_map_iff in Hi. destruct Hi as (id & <- & Hin).
+    specialize (Hc id Hin). rewrite ArenaProofs.contains_spec in Hc.
+    destruct (a_get a id) as [x|] eqn:E; [|discriminate].
+    apply ArenaProofs.a_get_Some in E. destruct E as (_ & Em & _).
+    apply filter_In. split.
+    + apply in_seq. assert (N.to_nat id < length (mask a)) by (apply nth_error_Some; congruence). lia.
+    + rewrite Em. reflexivity.
+Qed.
+
+Lemma orphan_count : forall (T : Type) (a : arena T) l, NoDup l ->
+  (forall id, In id l -> a_contains a id = true) -> length l = a_len a ->
+  forall id, a_contains a id = true -> In id l.
+Proof.
+  intros T a l Hn Hc Hl id Hid.
+  destruct (in_dec N.eq_dec id l) as [Hin|Hnin]; [exact Hin|exfalso].
+  assert (H : length (id :: l) <= a_len a).
+  { apply contained_le_len; [constructor; assumption|].
+    intros x [<-|Hx]; [exact Hid|exact (Hc x Hx)]. }
+  cbn [length] in H. lia.
+Qed.
+
+Section Orphans.
+Variable V : Type.
+Variable h : heap V.
+
+Lemma li_det : forall f1 f2 r a b,
+  h_leaf_ids f1 h r = Ok a -> h_leaf_ids f2 h r = Ok b -> a = b.
+Proof.
+  induction f1 as [|f1 IH]; intros f2 r a b H1 H2; [discriminate|].
+  destruct f2 as [|f2]; [discriminate|]. cbn [h_leaf_ids] in H1, H2.
+  destruct r as [id|id]; [congruence|].
+  destruct (get_branch h id) as [x|]; [|congruence].
+  apply CE_concat_res_ok in H1. destruct H1 as (p1 & M1 & ->).
+  apply CE_concat_res_ok in H2. destruct H2 as (p2 & M2 & ->).
+  f_equal. apply Forall2_eq_eq. eapply res_parts_rel; [exact M1|exact M2|].
+  intros c a b _ Ha Hb. exact (IH _ _ _ _ Ha Hb).
+Qed.
+
+Lemma bi_inv : forall f id x bids, get_branch h id = Some x ->
+  h_branch_ids (S f) h (RBranch id) = Ok bids ->
+  exists bparts, map (h_branch_ids f h) (bkids x) = map (@Ok _) bparts /\ bids = id :: concat bparts.
+Proof.
+  intros f id x bids Hg H. cbn [h_branch_ids] in H. rewrite Hg in H.
+  destruct (concat_res (map (h_branch_ids f h) (bkids x))) as [rest| | |] eqn:E; cbn [bind] in H;
+    try discriminate.
+  inversion H; subst bids. apply CE_concat_res_ok in E. destruct E as (bp & M & ->).
+  exists bp. auto.
+Qed.
+
+Lemma bi_det : forall f1 f2 r a b,
+  h_branch_ids f1 h r = Ok a -> h_branch_ids f2 h r = Ok b -> a = b.
+Proof.
+  induction f1 as [|f1 IH]; intros f2 r a b H1 H2; [discriminate|].
+  destruct f2 as [|f2]; [discriminate|].
+  destruct r as [id|id]; [cbn [h_branch_ids] in H1, H2; congruence|].
+  destruct (get_branch h id) as [x|] eqn:Hg; [|cbn [h_branch_ids] in H1, H2; rewrite Hg in *; congruence].
+  destruct (@bi_inv _ _ _ _ Hg H1) as (p1 & M1 & ->).
+  destruct (@bi_inv _ _ _ _ Hg H2) as (p2 & M2 & ->).
+  f_equal. f_equal. apply Forall2_eq_eq. eapply res_parts_rel; [exact M1|exact M2|].
+  intros c a b _ Ha Hb. exact (IH _ _ _ _ Ha Hb).
+Qed.
+
+Definition NE (lids : list N) : Prop :=
+  forall id l, In id lids -> get_leaf h id = Some l -> lkeys l <> [].
+
+(* the part of a child in both families *)
+Lemma child_parts : forall f (kids : list nref) bparts lparts i bp,
+  map (h_branch_ids f h) kids = map (@Ok _) bparts ->
+  map (h_leaf_ids f h) kids = map (@Ok _) lparts ->
+  nth_error bparts i = Some bp ->
+  exists c lp, nth_error kids i = Some c /\ h_branch_ids f h c = Ok bp /\
+    nth_error lparts i = Some lp /\ h_leaf_ids f h c = Ok lp.
+Proof.
+  intros f kids bparts lparts i bp Mb Ml Hi.
+  destruct (@CE_map_ok_nth _ _ _ _ _ _ _ Mb Hi) as (c & Hc & Hb).
+  destruct (@map_ok_nth_fwd _ _ _ _ _ _ _ Ml Hc) as (lp & Hlp & Hl).
+  exists c, lp. auto.
+Qed.
+
+Lemma NE_part : forall lparts lp, NE (concat lparts) -> In lp lparts -> NE lp.
+Proof.
+  intros lparts lp H Hin id l Hid. apply H. apply in_concat. exists lp. auto.
+Qed.
+
+(* every branch id listed below a well-formed node is an allocated branch whose own
+   (heap-determined) lists of branch and leaf ids are embedded in those of the node *)
+Lemma occ : forall fuel r ir lo hi lids bids,
+  hwf h ir lo hi r -> h_leaf_ids fuel h r = Ok lids -> h_branch_ids fuel h r = Ok bids ->
+  NE lids ->
+  forall B, In B bids ->
+  exists f' bl ll, h_branch_ids f' h (RBranch B) = Ok bl /\ length bl <= length bids /\
+    h_leaf_ids f' h (RBranch B) = Ok ll /\ ll <> [] /\ incl ll lids /\ get_branch h B <> None.
+Proof.
+  induction fuel as [|f IH]; intros r ir lo hi lids bids Hw Hl Hb Hne B HB; [discriminate|].
+  inversion Hw as [ir0 lo0 hi0 id0 l Hg Hlen Hs Hc Hocc Hbd
+                  |ir0 lo0 hi0 id0 x Hg Hlen Hs Hc Hocc Hk]; subst.
+  - cbn [h_branch_ids] in Hb. inversion Hb; subst bids. destruct HB.
+  - destruct (leaf_ids_sorted _ Hw Hl Hne) as (Hck & _ & _).
+    destruct (@bi_inv _ _ _ _ Hg Hb) as (bparts & Mb & ->).
+    pose proof Hl as Hl0.
+    cbn [h_leaf_ids] in Hl. rewrite Hg in Hl. apply CE_concat_res_ok in Hl.
+    destruct Hl as (lparts & Ml & ->).
+    destruct HB as [<-|HB].
+    + exists (S f), (id0 :: concat bparts), (concat lparts).
+      split; [exact Hb|]. split; [lia|]. split; [exact Hl0|]. split.
+      * intros E. apply Hck. rewrite E. reflexivity.
+      * split; [apply incl_refl|]. congruence.
+    + apply in_concat in HB. destruct HB as (bp & Hbp & HB).
+      pose proof Hbp as Hbp0.
+      apply In_nth_error in Hbp. destruct Hbp as (i & Hi).
+      destruct (@child_parts _ _ _ _ _ _ Mb Ml Hi) as (c & lp & Hci & Hcb & Hlp & Hcl).
+      pose proof (nth_error_In _ _ Hlp) as Hlpin.
+      destruct (IH c false _ _ lp bp (Hk i c Hci) Hcl Hcb (@NE_part _ _ Hne Hlpin) B HB)
+        as (f' & bl & ll & E1 & E2 & E3 & E4 & E5 & E6).
+      exists f', bl, ll. split; [exact E1|]. split.
+      * pose proof (@length_in_concat _ _ _ Hbp0). cbn [length]. lia.
+      * split; [exact E3|]. split; [exact E4|]. split; [|exact E6].
+        intros a Ha. apply in_concat. exists lp. split; [exact Hlpin|exact (E5 a Ha)].
+Qed.
+
+Lemma bids_nodup : forall fuel r ir lo hi lids bids,
+  hwf h ir lo hi r -> h_leaf_ids fuel h r = Ok lids -> h_branch_ids fuel h r = Ok bids ->
+  NE lids -> NoDup lids -> NoDup bids.
+Proof.
+  induction fuel as [|f IH]; intros r ir lo hi lids bids Hw Hl Hb Hne Hnd; [discriminate|].
+  inversion Hw as [ir0 lo0 hi0 id0 l Hg Hlen Hs Hc Hocc Hbd
+                  |ir0 lo0 hi0 id0 x Hg Hlen Hs Hc Hocc Hk]; subst.
+  - cbn [h_branch_ids] in Hb. inversion Hb; subst bids. constructor.
+  - destruct (@bi_inv _ _ _ _ Hg Hb) as (bparts & Mb & ->).
+    cbn [h_leaf_ids] in Hl. rewrite Hg in Hl. apply CE_concat_res_ok in Hl.
+    destruct Hl as (lparts & Ml & ->).
+    constructor.
+    + (* the node itself does not occur below itself *)
+      intros HB. apply in_concat in HB. destruct HB as (bp & Hbp & HB).
+      pose proof Hbp as Hbp0.
+      apply In_nth_error in Hbp. destruct Hbp as (i & Hi).
+      destruct (@child_parts _ _ _ _ _ _ Mb Ml Hi) as (c & lp & Hci & Hcb & Hlp & Hcl).
+      pose proof (nth_error_In _ _ Hlp) as Hlpin.
+      destruct (@occ _ _ _ _ _ _ _ (Hk i c Hci) Hcl Hcb (@NE_part _ _ Hne Hlpin) id0 HB)
+        as (f' & bl & ll & E1 & E2 & _).
+      pose proof (@bi_det _ _ _ _ _ E1 Hb) as ->.
+      pose proof (@length_in_concat _ _ _ Hbp0). cbn [length] in E2. lia.
+    + apply NoDup_concat_intro.
+      * intros bp Hbp. apply In_nth_error in Hbp. destruct Hbp as (i & Hi).
+        destruct (@child_parts _ _ _ _ _ _ Mb Ml Hi) as (c & lp & Hci & Hcb & Hlp & Hcl).
+        pose proof (nth_error_In _ _ Hlp) as Hlpin.
+        apply (IH c false _ _ lp bp (Hk i c Hci) Hcl Hcb (@NE_part _ _ Hne Hlpin)).
+        exact (@NoDup_concat_elim1 _ _ _ Hnd Hlpin).
+      * intros i j bpi bpj B Hij Hi Hj HBi HBj.
+        destruct (@child_parts _ _ _ _ _ _ Mb Ml Hi) as (ci & lpi & Hci & Hcbi & Hlpi & Hcli).
+        destruct (@child_parts _ _ _ _ _ _ Mb Ml Hj) as (cj & lpj & Hcj & Hcbj & Hlpj & Hclj).
+        pose proof (nth_error_In _ _ Hlpi) as Hini. pose proof (nth_error_In _ _ Hlpj) as Hinj.
+        destruct (@occ _ _ _ _ _ _ _ (Hk i ci Hci) Hcli Hcbi (@NE_part _ _ Hne Hini) B HBi)
+          as (f1 & bl1 & ll1 & _ & _ & L1 & N1 & I1 & _).
+        destruct (@occ _ _ _ _ _ _ _ (Hk j cj Hcj) Hclj Hcbj (@NE_part _ _ Hne Hinj) B HBj)
+          as (f2 & bl2 & ll2 & _ & _ & L2 & N2 & I2 & _).
+        pose proof (@li_det _ _ _ _ _ L1 L2) as <-.
+        destruct ll1 as [|a ll1]; [congruence|].
+        apply (@NoDup_concat_elim2 _ lparts i j lpi lpj a Hnd); auto; try lia.
+        -- apply I1. left. reflexivity.
+        -- apply I2. left. reflexivity.
+Qed.
+
+(* strictly ascending concatenation of non-empty blocks: the blocks are distinct *)
+Lemma sorted_blocks_nodup : forall ids, (forall id, In id ids -> keysof h id <> []) ->
+  sorted_keys (chain_keys h ids) -> NoDup ids.
+Proof.
+  induction ids as [|a ids IH]; intros Hne Hs; [constructor|].
+  unfold chain_keys in Hs. cbn [flat_map] in Hs. apply sorted_keys_app in Hs.
+  destruct Hs as (_ & S2 & Hcross). constructor.
+  - intros Hin. destruct (keysof h a) as [|k ks] eqn:Ek; [apply (Hne a); [left; reflexivity|exact Ek]|].
+    assert (Hk : In k (flat_map (keysof h) ids)).
+    { apply in_flat_map. exists a. split; [exact Hin|]. rewrite Ek. left. reflexivity. }
+    specialize (Hcross k k (or_introl eq_refl) Hk). lia.
+  - apply IH; [|exact S2]. intros id Hid. apply Hne. right. exact Hid.
+Qed.
+
+(* the recursive counter agrees with the lengths of the collected id lists *)
+Lemma counts_lengths : forall fuel r n lids bids,
+  h_count_nodes fuel h r = Ok n -> h_leaf_ids fuel h r = Ok lids -> h_branch_ids fuel h r = Ok bids ->
+  fst n = length lids /\ snd n = length bids.
+Proof.
+  induction fuel as [|f IH]; intros r n lids bids Hn Hl Hb; [discriminate|].
+  destruct r as [id|id].
+  - cbn [h_count_nodes h_leaf_ids h_branch_ids] in *. inversion Hn; inversion Hl; inversion Hb. auto.
+  - destruct (get_branch h id) as [x|] eqn:Hg.
+    + destruct (@bi_inv _ _ _ _ Hg Hb) as (bparts & Mb & ->).
+      cbn [h_leaf_ids h_count_nodes] in Hl, Hn. rewrite Hg in Hl, Hn.
+      apply CE_concat_res_ok in Hl. destruct Hl as (lparts & Ml & ->).
+      apply pair_sum_inv in Hn. destruct Hn as (cparts & Mc & F1 & F2). cbn [fst snd] in F1, F2.
+      assert (All : forall c, In c (bkids x) -> exists a l b,
+                h_count_nodes f h c = Ok a /\ h_leaf_ids f h c = Ok l /\ h_branch_ids f h c = Ok b).
+      { intros c Hc. apply In_nth_error in Hc. destruct Hc as (i & Hi).
+        destruct (@map_ok_nth_fwd _ _ _ _ _ _ _ Mc Hi) as (a & _ & Ha).
+        destruct (@map_ok_nth_fwd _ _ _ _ _ _ _ Ml Hi) as (l & _ & Hl).
+        destruct (@map_ok_nth_fwd _ _ _ _ _ _ _ Mb Hi) as (b & _ & Hb').
+        exists a, l, b. auto. }
+      rewrite F1, F2. cbn [length]. split.
+      * cbn [Nat.add]. apply sum_fst_concat. eapply res_parts_rel; [exact Mc|exact Ml|].
+        intros c a b Hc Ha Hb'. destruct (All c Hc) as (a' & l' & b' & _ & _ & Ebb).
+        exact (proj1 (IH _ _ _ _ Ha Hb' Ebb)).
+      * rewrite Nat.add_1_l. f_equal. apply sum_snd_concat. eapply res_parts_rel; [exact Mc|exact Mb|].
+        intros c a b Hc Ha Hb'. destruct (All c Hc) as (a' & l' & b' & _ & Ell & _).
+        exact (proj2 (IH _ _ _ _ Ha Ell Hb')).
+    + cbn [h_count_nodes h_leaf_ids h_branch_ids] in *. rewrite Hg in *.
+      inversion Hn; inversion Hl; inversion Hb. auto.
+Qed.
+End Orphans.
+Unset Implicit Arguments.
+
+
+Lemma a_get_contains : forall (T : Type) (a : arena T) id x, a_get a id = Some x -> a_contains a id = true.
+Proof. intros T a id x H. rewrite ArenaProofs.contains_spec, H. reflexivity. Qed.
+
+Lemma a_get_contains' : forall (T : Type) (a : arena T) id, a_get a id <> None -> a_contains a id = true.
+Proof.
+  intros T a id H. destruct (a_get a id) as [x|] eqn:E; [|congruence].
+  exact (a_get_contains T a id x E).
+Qed.
+
+Lemma tree_ids_exact : forall (V : Type) (h : heap V) tids bids,
+  check_invariants_detailed h = Ok None ->
+  collect_leaf_ids h = Ok tids -> collect_branch_ids h = Ok bids ->
+  (forall id l, In id tids -> get_leaf h id = Some l -> 2 <= lcap l) ->
+  (NoDup tids /\ (forall id, In id tids -> a_contains (hleaves h) id = true) /\
+   length tids = a_len (hleaves h)) /\
+  (NoDup bids /\ (forall id, In id bids -> a_contains (hbranches h) id = true) /\
+   length bids = a_len (hbranches h)).
+Proof.
+  intros V h tids bids Hd Ht Hb Hcap.
+  destruct (detailed_sound h Hd) as (Hw & _ & (nl & nb & Hcnt & Hnl & Hnb) & _).
+  unfold collect_leaf_ids in Ht. unfold collect_branch_ids in Hb. unfold count_nodes_in_tree in Hcnt.
+  destruct (hroot h) as [rid|rid] eqn:Er.
+  - unfold dfuel in Ht, Hb. cbn [h_leaf_ids h_branch_ids] in Ht, Hb.
+    inversion Ht; subst tids. inversion Hb; subst bids. inversion Hcnt as [[Hc1 Hc2]].
+    inversion Hw as [ir0 lo0 hi0 id0 l Hg Hlen Hs Hc Hocc Hbd|]; subst.
+    split; split.
+    + constructor; [intros []|constructor].
+    + split; [|cbn [length]; lia]. intros id [<-|[]]. exact (a_get_contains _ _ _ _ Hg).
+    + constructor.
+    + split; [intros id []|cbn [length]; lia].
+  - destruct (@counts_lengths V h _ _ _ _ _ Hcnt Ht Hb) as [L1 L2]. cbn [fst snd] in L1, L2.
+    pose proof (leaf_ids_alloc _ Hw Ht) as Hal.
+    assert (Hne : NE h tids).
+    { intros id l Hin G. destruct (Hal id Hin) as (l' & G' & _ & O).
+      rewrite G in G'. inversion G'; subst l'.
+      assert (Ho : lcap l / 2 <= length (lkeys l)) by (apply O; intros _; eauto).
+      pose proof (Hcap id l Hin G) as H2.
+      pose proof (Nat.div_mod (lcap l) 2) as Hdm. pose proof (Nat.mod_upper_bound (lcap l) 2) as Hmu.
+      destruct (lkeys l); [cbn [length] in Ho; lia|discriminate]. }
+    destruct (leaf_ids_sorted _ Hw Ht Hne) as (_ & Hst & _).
+    assert (Hnd : NoDup tids).
+    { apply (@sorted_blocks_nodup V h); [|exact Hst]. intros id Hin.
+      destruct (Hal id Hin) as (l & G & _). unfold keysof. rewrite G. exact (Hne id l Hin G). }
+    split; split.
+    + exact Hnd.
+    + split; [|lia]. intros id Hin. destruct (Hal id Hin) as (l & G & _).
+      exact (a_get_contains _ _ _ _ G).
+    + exact (@bids_nodup V h _ _ _ _ _ _ _ Hw Ht Hb Hne Hnd).
+    + split; [|lia]. intros id Hin.
+      destruct (@occ V h _ _ _ _ _ _ _ Hw Ht Hb Hne id Hin) as (_ & _ & _ & _ & _ & _ & _ & _ & G).
+      apply a_get_contains'. exact G.
+Qed.
+
+Theorem orphan_rejected : forall (V:Type) (h:heap V) tids bids,
+  collect_leaf_ids h = Ok tids -> collect_branch_ids h = Ok bids ->
+  (forall id l, In id tids -> get_leaf h id = Some l -> 2 <= lcap l) ->
+  ((exists id, a_contains (hleaves h) id = true /\ ~ In id tids) \/
+   (exists id, a_contains (hbranches h) id = true /\ ~ In id bids)) ->
+  check_invariants_detailed h <> Ok None.
+Proof.
+  intros V h tids bids Ht Hb Hcap Horph Hd.
+  destruct (tree_ids_exact V h tids bids Hd Ht Hb Hcap) as [(N1 & C1 & L1) (N2 & C2 & L2)].
+  destruct Horph as [(id & Hc & Hn)|(id & Hc & Hn)]; apply Hn.
+  - exact (@orphan_count _ _ _ N1 C1 L1 id Hc).
+  - exact (@orphan_count _ _ _ N2 C2 L2 id Hc).
+Qed.
+
+
+(* ------------------------------------------------------------------ *)
+(* B10: a range iterator advanced n times                              *)
+(* ------------------------------------------------------------------ *)
+Section TakeCollect.
+Variables (V S' : Type).
+Variable next : S' -> res (S' * option (key * V)).
+Hypothesis fused : forall s s', next s = Ok (s', None) -> next s' = Ok (s', None).
+
+Lemma take_fused : forall n s, next s = Ok (s, None) -> take_n next n s = Ok (s, repeat None n).
+Proof.
+  induction n as [|n IH]; intros s H; [reflexivity|].
+  cbn [take_n]. rewrite H. cbn [bind]. rewrite (IH s H). cbn [bind fst snd repeat]. reflexivity.
+Qed.
+
+Lemma take_of_collect : forall fuel s T, collect_f next fuel s = Ok T ->
+  forall n, exists s', take_n next n s = Ok (s', map Some (firstn n T) ++ repeat None (n - length T)).
+Proof.
+  induction fuel as [|f IH]; intros s T H n; [discriminate|].
+  destruct n as [|n]; [exists s; reflexivity|].
+  cbn [collect_f] in H. cbn [take_n].
+  destruct (next s) as [[s1 item]| | |] eqn:En; cbn [bind snd fst] in H; try discriminate.
+  cbn [bind]. destruct item as [kv|].
+  - destruct (collect_f next f s1) as [rest| | |] eqn:Ec; cbn [bind] in H; try discriminate.
+    inversion H; subst T. destruct (IH s1 rest Ec n) as (s' & E). rewrite E.
+    cbn [bind fst snd]. exists s'. reflexivity.
+  - inversion H; subst T. rewrite (take_fused n s1 (fused _ _ En)). cbn [bind fst snd].
+    exists s1. cbn [firstn map app length]. rewrite Nat.sub_0_r. reflexivity.
+Qed.
+End TakeCollect.
+
+Theorem range_partial_and_exhausted : forall (V : Type) (c : nat) (ops : list (op V)) (lo hi : bound) (n : nat),
+  4 <= c -> fits (ops_weight ops) ->
+  exists b it s', state_after c ops = Some b /\ range (flatten b) lo hi = Ok it /\
+    let R := filter (fun e => within lo hi (kz (fst e))) (contents (root b)) in
+    take_n (range_next (flatten b)) n it
+    = Ok (s', map Some (firstn n R) ++ repeat None (n - length R)).
+Proof.
+  intros V c ops lo hi n Hc F.
+  destruct (@reachable_state V c ops Hc F) as (b & E & I & _ & HO & _).
+  pose proof (ReadersRange.range_spec I HO lo hi) as HR. unfold range_collect in HR.
+  destruct (range (flatten b) lo hi) as [it| | |] eqn:Er; cbn [bind] in HR; try discriminate.
+  destruct (@take_of_collect V _ (range_next (flatten b)) (@range_iterator_fused V (flatten b)) _ _ _ HR n)
+    as (s' & Et).
+  exists b, it, s'. split; [exact E|]. split; [exact Er|]. exact Et.
+Qed.
+
+
+(* ------------------------------------------------------------------ *)
+(* B9: the arena-level mutators never reach UB                         *)
+(* ------------------------------------------------------------------ *)
+Create HintDb nu.
+#[export] Hint Resolve no_ub_ok no_ub_panic no_ub_fuel : nu.
+Ltac nu_step :=
+  first
+    [ apply no_ub_ok | apply no_ub_panic | apply no_ub_fuel
+    | assumption
+    | progress cbv beta zeta
+    | match goal with
+      | |- no_ub (bind _ _) => apply no_ub_bind; [ | intros ]
+      end
+    | solve [auto with nu]
+    | match goal with
+      | |- no_ub (match ?x with _ => _ end) => destruct x
+      end ].
+Ltac nu := repeat nu_step.
+
+#[export] Hint Resolve vec_insert_no_ub vec_remove_no_ub vec_set_no_ub vec_get_no_ub
+     vec_split_off_no_ub usub_no_ub find_leaf_no_ub : nu.
+
+Lemma arena_id_of_index_no_ub : forall i, no_ub (Arena.id_of_index i).
+Proof. intros i. unfold Arena.id_of_index. nu. Qed.
+#[export] Hint Resolve arena_id_of_index_no_ub : nu.
+Lemma allocate_no_ub : forall (T : Type) (a : arena T) x, no_ub (allocate a x).
+Proof. intros T a x. unfold allocate. nu. Qed.
+Lemma deallocate_no_ub : forall (T : Type) (d : T) (a : arena T) id, no_ub (deallocate d a id).
+Proof. intros T d a id. unfold deallocate. nu. Qed.
+#[export] Hint Resolve allocate_no_ub deallocate_no_ub : nu.
+
+Section ArenaNoUB.
+Variable V : Type.
+Lemma alloc_leaf_no_ub : forall (h : heap V) l, no_ub (alloc_leaf h l).
+Proof. intros h l. unfold alloc_leaf. nu. Qed.
+Hint Resolve alloc_leaf_no_ub : nu.
+Lemma alloc_branch_no_ub : forall (h : heap V) x, no_ub (alloc_branch h x).
+Proof. intros h x. unfold alloc_branch. nu. Qed.
+Hint Resolve alloc_branch_no_ub : nu.
+Lemma dealloc_leaf_no_ub : forall (h : heap V) id, no_ub (dealloc_leaf h id).
+Proof. intros h id. unfold dealloc_leaf. nu. Qed.
+Hint Resolve dealloc_leaf_no_ub : nu.
+Lemma dealloc_branch_no_ub : forall (h : heap V) id, no_ub (dealloc_branch h id).
+Proof. intros h id. unfold dealloc_branch. nu. Qed.
+Hint Resolve dealloc_branch_no_ub : nu.
+Lemma insert_into_leaf_A_no_ub : forall (h : heap V) id k v, no_ub (insert_into_leaf_A h id k v).
+Proof. intros h id k v. unfold insert_into_leaf_A. nu. Qed.
+Hint Resolve insert_into_leaf_A_no_ub : nu.
+Lemma realize_A_no_ub : forall (h : heap V) orig d, no_ub (realize_A h orig d).
+Proof. intros h orig d. unfold realize_A. nu. Qed.
+Hint Resolve realize_A_no_ub : nu.
+Lemma branch_insert_child_no_ub : forall (x : branch) ci sep newc, no_ub (branch_insert_child x ci sep newc).
+Proof. intros x ci sep newc. unfold branch_insert_child. nu. Qed.
+Hint Resolve branch_insert_child_no_ub : nu.
+Lemma ins_A_no_ub : forall fuel (h : heap V) r k v, no_ub (ins_A fuel h r k v).
+Proof. induction fuel as [|f IH]; intros h r k v; cbn [ins_A]; nu. Qed.
+Hint Resolve ins_A_no_ub : nu.
+Lemma insert_A_no_ub : forall (h : heap V) k v, no_ub (insert_A h k v).
+Proof. intros h k v. unfold insert_A. nu. Qed.
+Hint Resolve insert_A_no_ub : nu.
+Lemma borrow_from_left_leaf_A_no_ub : forall (h : heap V) b ci l c, no_ub (borrow_from_left_leaf_A h b ci l c).
+Proof. intros h b ci l c. unfold borrow_from_left_leaf_A. nu. Qed.
+Hint Resolve borrow_from_left_leaf_A_no_ub : nu.
+Lemma borrow_from_right_leaf_A_no_ub : forall (h : heap V) b ci c r, no_ub (borrow_from_right_leaf_A h b ci c r).
+Proof. intros h b ci c r. unfold borrow_from_right_leaf_A. nu. Qed.
+Hint Resolve borrow_from_right_leaf_A_no_ub : nu.
+Lemma merge_with_left_leaf_A_no_ub : forall (h : heap V) b ci l c, no_ub (merge_with_left_leaf_A h b ci l c).
+Proof. intros h b ci l c. unfold merge_with_left_leaf_A. nu. Qed.
+Hint Resolve merge_with_left_leaf_A_no_ub : nu.
+Lemma merge_with_right_leaf_A_no_ub : forall (h : heap V) b ci c r, no_ub (merge_with_right_leaf_A h b ci c r).
+Proof. intros h b ci c r. unfold merge_with_right_leaf_A. nu. Qed.
+Hint Resolve merge_with_right_leaf_A_no_ub : nu.
+Lemma child_leaf_id_A_no_ub : forall (h : heap V) p ci, no_ub (child_leaf_id_A h p ci).
+Proof. intros h p ci. unfold child_leaf_id_A. nu. Qed.
+Hint Resolve child_leaf_id_A_no_ub : nu.
+Lemma rebalance_leaf_A_no_ub : forall (h : heap V) p ci li ri, no_ub (rebalance_leaf_A h p ci li ri).
+Proof. intros h p ci li ri. unfold rebalance_leaf_A. nu. Qed.
+Hint Resolve rebalance_leaf_A_no_ub : nu.
+Lemma borrow_from_left_branch_A_no_ub : forall (h : heap V) p ci l c sep, no_ub (borrow_from_left_branch_A h p ci l c sep).
+Proof. intros h p ci l c sep. unfold borrow_from_left_branch_A. nu. Qed.
+Hint Resolve borrow_from_left_branch_A_no_ub : nu.
+Lemma borrow_from_right_branch_A_no_ub : forall (h : heap V) p ci c r sep, no_ub (borrow_from_right_branch_A h p ci c r sep).
+Proof. intros h p ci c r sep. unfold borrow_from_right_branch_A. nu. Qed.
+Hint Resolve borrow_from_right_branch_A_no_ub : nu.
+Lemma merge_with_left_branch_A_no_ub : forall (h : heap V) p ci, no_ub (merge_with_left_branch_A h p ci).
+Proof. intros h p ci. unfold merge_with_left_branch_A. nu. Qed.
+Hint Resolve merge_with_left_branch_A_no_ub : nu.
+Lemma merge_with_right_branch_A_no_ub : forall (h : heap V) p ci, no_ub (merge_with_right_branch_A h p ci).
+Proof. intros h p ci. unfold merge_with_right_branch_A. nu. Qed.
+Hint Resolve merge_with_right_branch_A_no_ub : nu.
+Lemma rebalance_branch_A_no_ub : forall (h : heap V) p ci li ri, no_ub (rebalance_branch_A h p ci li ri).
+Proof. intros h p ci li ri. unfold rebalance_branch_A. nu. Qed.
+Hint Resolve rebalance_branch_A_no_ub : nu.
+Lemma rebalance_child_A_no_ub : forall (h : heap V) p ci, no_ub (rebalance_child_A h p ci).
+Proof. intros h p ci. unfold rebalance_child_A. nu. Qed.
+Hint Resolve rebalance_child_A_no_ub : nu.
+Lemma rem_A_no_ub : forall fuel (h : heap V) r z, no_ub (rem_A fuel h r z).
+Proof. induction fuel as [|f IH]; intros h r z; cbn [rem_A]; nu. Qed.
+Hint Resolve rem_A_no_ub : nu.
+Lemma create_empty_root_leaf_A_no_ub : forall (h : heap V), no_ub (create_empty_root_leaf_A h).
+Proof. intros h. unfold create_empty_root_leaf_A. nu. Qed.
+Hint Resolve create_empty_root_leaf_A_no_ub : nu.
+Lemma collapse_A_no_ub : forall fuel (h : heap V), no_ub (collapse_A fuel h).
+Proof. induction fuel as [|f IH]; intros h; cbn [collapse_A]; nu. Qed.
+Hint Resolve collapse_A_no_ub : nu.
+Lemma remove_A_no_ub : forall (h : heap V) z, no_ub (remove_A h z).
+Proof. intros h z. unfold remove_A. nu. Qed.
+Hint Resolve remove_A_no_ub : nu.
+Lemma get_mut_write_A_no_ub : forall (h : heap V) z v, no_ub (get_mut_write_A h z v).
+Proof. intros h z v. unfold get_mut_write_A. nu. Qed.
+Hint Resolve get_mut_write_A_no_ub : nu.
+End ArenaNoUB.
+
+Theorem arena_mutators_total : forall (V:Type) (h:heap V) k v z,
+  no_ub (insert_A h k v) /\ no_ub (remove_A h z) /\ no_ub (get_mut_write_A h z v).
+Proof.
+  intros V h k v z. split; [|split].
+  - apply insert_A_no_ub.
+  - apply remove_A_no_ub.
+  - apply get_mut_write_A_no_ub.
+Qed.
+
 Print Assumptions outputs_never_integrity.
 Print Assumptions contents_agree_all_ops.
 Print Assumptions detailed_total.
@@ -444,3 +1050,6 @@ Print Assumptions fast_iterator_fused.
 Print Assumptions range_iterator_fused.
 Print Assumptions get_mut_finds_what_get_finds.
 Print Assumptions len_counts_live.
+Print Assumptions orphan_rejected.
+Print Assumptions range_partial_and_exhausted.
+Print Assumptions arena_mutators_total.
